@@ -243,3 +243,8 @@ def make_pilot(pm, uid, resource='local.localhost'):
     pm._uids.append(uid)
     pm._pilots[uid] = p
     return p
+
+
+# the documented final states, by value: oracles must not read the repository's
+# module-level (mutable) `rps.FINAL` list, which code under test can change
+FINAL_STATES = (rps.DONE, rps.FAILED, rps.CANCELED)
